@@ -116,6 +116,16 @@ def case_setgroups(case):
     unit = GearModel(short=short, groups=cur)
     bystander = GearModel(short=40, groups={2, 11})     # must not be touched by short/int destinations
     units = [unit, bystander] if kind in ("short", "int") else [unit]
+    extra = []
+    if kind in ("group", "broadcast", "unaddressed") and case.get("others", (case["cur"] ^ case["req"]) % 3):
+        # a multi-unit destination normally reaches several units, each with its own membership
+        n_extra = case.get("others", (case["cur"] ^ case["req"]) % 3)
+        for j in range(n_extra):
+            gs = bits_to_set((case["cur"] * (j + 3) + 0x1234 * (j + 1)) & 0xFFFF)
+            if kind == "group":
+                gs.add(g)
+            extra.append(GearModel(short=None if kind == "unaddressed" else 50 + j, groups=gs))
+        units = units + extra
     bus = Bus(units, max_commands=100)
     where = "SetGroups(%s, %r) on a unit in groups %r" % (kind if kind != "group" else "group %d" % g, sorted(req), sorted(cur))
     try:
@@ -125,6 +135,11 @@ def case_setgroups(case):
             raise
         return [("C08:setgroups-raised:%s" % type(e).__name__, "%s raised %r" % (where, e))]
     out = []
+    for j, u in enumerate(extra):
+        if u.groups != req:
+            out.append(("C08:setgroups-membership:%s:other-unit" % kind, "%s left another unit reached by the same destination in "
+                        "groups %r" % (where, sorted(u.groups))))
+            break
     if unit.groups != req:
         sig = "C08:setgroups-membership:" + kind
         if kind == "group" and g not in req:
